@@ -94,6 +94,17 @@ func C14(r *simkit.Run) {
 	// failure leaves the block's transaction open); a transaction block that is never closed; an
 	// object every statement creates fine but the state reading that follows the replay cannot
 	// digest (the failure happens between the replay and the restore); a process crash.
+	// Sometimes a later file is a checkpoint (it stands for everything before it): a replay starts
+	// from it, and lint restores the dev database to empty before it loads one.
+	// Whatever fails is placed where a replay passes: in the checkpoint or after it.
+	firstReplayed := 0
+	if len(files) > 1 && t.Chance("checkpoint-in-directory", 1, 4) {
+		firstReplayed = 1 + t.Draw("checkpoint-file", len(files)-1)
+		f := files[firstReplayed]
+		f.Checkpoint = true
+		f.Stmts = append([]Stmt{{ID: fmt.Sprintf("f%d.ck", f.Idx), Kind: KDDL, SQL: journalDDL}}, f.Stmts...)
+		r.Probe("directory-with-checkpoint")
+	}
 	// Sometimes a file wraps some of its statements in an explicit, well-formed BEGIN ... COMMIT
 	// block: whatever stops the replay inside it (a crash, an interrupt) stops it with that
 	// transaction open.
@@ -154,7 +165,7 @@ func C14(r *simkit.Run) {
 	badPos := 0
 	if fault == "bad-statement" {
 		if usesDir {
-			f := files[t.Draw("bad-file", len(files))]
+			f := files[firstReplayed+t.Draw("bad-file", len(files)-firstReplayed)]
 			k := t.Draw("bad-stmt", len(f.Stmts))
 			if f.Idx == 1 && k == 0 {
 				f.Stmts = append(f.Stmts, MkStmt("f1", len(f.Stmts), KBad))
@@ -167,7 +178,7 @@ func C14(r *simkit.Run) {
 	}
 	if fault == "bad-statement-in-transaction-block" || fault == "unterminated-transaction-block" || fault == "unreadable-object" {
 		if usesDir {
-			f := files[t.Draw("bad-file", len(files))]
+			f := files[firstReplayed+t.Draw("bad-file", len(files)-firstReplayed)]
 			tag := fmt.Sprintf("f%d", f.Idx)
 			add := func(sql string) {
 				f.Stmts = append(f.Stmts, Stmt{ID: fmt.Sprintf("%s.s%d", tag, len(f.Stmts)), Kind: KDDL, SQL: sql})
